@@ -1,0 +1,109 @@
+//go:build verif
+
+// Contracts for the deductive verifier in /verif (govc): installing a new
+// index (C12) and propagating delta tombstones (C13) in Builder.Finish.
+// Comment-only file, compiled only with -tags verif.
+
+package index
+
+// ---------------------------------------------------------------------------
+// Effects of the callees of Finish (assumed where they leave the contracts)
+// ---------------------------------------------------------------------------
+
+// A failed SetTombstone is a failed effect (derived from setTombstone's
+// contract, which is proved for a caller that has seen no failure yet).
+//@ func index.SetTombstone
+//@   trusted
+//@   ensures result != nil ==> effectFailed
+//@   ensures result == nil ==> effectFailed == old(effectFailed)
+//@   assigns effectFailed
+
+//@ func index.ReadMetadataPathAlive
+//@   trusted
+//@   ensures result2 == nil ==> (forall k int :: 0 <= k && k < len(result0) ==> result0[k] != nil)
+//@   assigns nothing
+
+//@ func index.(*Options).FindAllShards
+//@   trusted
+//@   assigns nothing
+//@ func index.(*Options).GetHash
+//@   trusted
+//@   assigns nothing
+//@ func index.(*Options).HashOptions
+//@   trusted
+//@   assigns nothing
+
+//@ func index.BranchNamesEqual
+//@   loop 1:
+//@     invariant true
+//@   ensures true
+//@   assigns nothing
+
+// ---------------------------------------------------------------------------
+// C12 / C13: Builder.Finish
+// ---------------------------------------------------------------------------
+
+// Success reporting: Finish returns nil only if no rename, removal, tombstone
+// update, path lookup or sidecar write it attempted has failed ("a run that
+// reports success has installed the complete new index"). The invariant that
+// carries it: a failed effect is always recorded in b.buildError.
+// Delta builds: the metadata written for every older shard lists every
+// changed-or-removed path as a file tombstone and carries the new branches.
+//@ func index.(*Builder).Finish
+//@   may_panic
+//@   requires b != nil && !effectFailed
+//@   loop 1:
+//@     invariant b.buildError != nil
+//@   loop 2:
+//@     invariant !effectFailed
+//@   loop 3:
+//@     invariant !effectFailed && repository != nil && (len(b.opts.changedOrRemovedFiles) > 0 ==> repository.FileTombstones != nil)
+//@     invariant forall k int :: 0 <= k && k <= $i ==> has(repository.FileTombstones, b.opts.changedOrRemovedFiles[k])
+//@   loop 4:
+//@     invariant effectFailed ==> b.buildError != nil
+//@     invariant toDelete != nil
+//@   loop 5:
+//@     invariant effectFailed ==> b.buildError != nil
+//@     invariant toDelete != nil
+//@   loop 6:
+//@     invariant effectFailed ==> b.buildError != nil
+//@   loop 7:
+//@     invariant effectFailed ==> b.buildError != nil
+//@   assert at call:JsonMarshalRepoMetaTemp: forall k int :: 0 <= k && k < len(b.opts.changedOrRemovedFiles) ==> has(as(arg(1), "*zoekt.Repository").FileTombstones, b.opts.changedOrRemovedFiles[k])
+//@   assert at call:JsonMarshalRepoMetaTemp: as(arg(1), "*zoekt.Repository").Branches == b.opts.RepositoryDescription.Branches
+//@   ensures result == nil ==> !effectFailed
+// Ordering (control-flow contracts): an old shard file is removed, or an old
+// compound shard tombstoned, only after every rename of a new shard has been
+// attempted - never before, never in between.
+//@   order call:Rename before call:SetTombstone
+//@   order call:Rename before call:Remove#2
+
+// ---------------------------------------------------------------------------
+// C12: a shard is written to a temporary file first
+// ---------------------------------------------------------------------------
+
+// Serialising the shard is a fallible effect (assumed); that the file was
+// closed without error is a control-flow contract on writeShard.
+//@ func index.(*ShardBuilder).Write
+//@   trusted
+//@   ensures result != nil ==> effectFailed
+//@   ensures result == nil ==> effectFailed == old(effectFailed)
+//@   assigns effectFailed
+
+// Closing the file does not write program memory (assumed frame).
+//@ func os.(*File).Close
+//@   trusted
+//@   flag only_for=index.(*Builder).writeShard
+//@   assigns nothing
+
+// writeShard hands back a finished temporary shard only if the shard was
+// written completely and the file closed without error; the name it reports
+// is the temporary file's, never the final one (the rename is Finish's job).
+//@ func index.(*Builder).writeShard
+//@   may_panic
+//@   requires !effectFailed
+//@   guard alloc:finishedShard by nilerr:Write && nilerr:CreateTemp && nilerr:Close
+//@   ensures result1 == nil ==> !effectFailed
+//@   ensures result1 == nil ==> result0 != nil
+//@   ensures result1 == nil ==> result0.final == fn
+//@   ensures result1 != nil ==> result0 == nil
